@@ -157,8 +157,13 @@ func (r *runner) watchdog() {
 		time.Sleep(100 * time.Millisecond)
 		r.mu.Lock()
 		var late *flight
+		// on an oversubscribed machine the bound is stretched (ev.LoadFactor: 1 on a
+		// machine that runs one check at a time), and a call whose goroutine is
+		// runnable at the bound - starved, not blocked - gets three bounds at least
+		lf := ev.LoadFactor()
+		bound := time.Duration(float64(callBound) * lf)
 		for _, f := range r.inflight {
-			if time.Since(f.since) > callBound && (late == nil || f.since.Before(late.since)) {
+			if time.Since(f.since) > bound && (late == nil || f.since.Before(late.since)) {
 				late = f
 			}
 		}
@@ -190,12 +195,15 @@ func (r *runner) watchdog() {
 		buf := make([]byte, 2<<20)
 		buf = buf[:runtime.Stack(buf, true)]
 		where := blockedAt(string(buf), late.gid)
+		if (strings.HasSuffix(where, "[runnable]") || strings.HasSuffix(where, "[running]")) && time.Since(late.since) < 3*callBound {
+			continue
+		}
 		res := *r.res
 		res.Verdict = "violation"
 		res.Sig = fmt.Sprintf("primary-call-blocked:fault=%s:%s:at=%s", r.c.Fault.Class, late.op, where)
 		res.BytesAtBlock = bytesAtt
 		res.Msg = fmt.Sprintf("primary %s did not return within %v (fault class %s, healthy replicas %d, %d payload bytes written since the faulty replica was attached); "+
-			"blocked at %s; other calls in flight: %v\n%s", late.op, callBound, r.c.Fault.Class, r.c.Healthy, bytesAtt, where, others, interesting(string(buf)))
+			"blocked at %s; other calls in flight: %v\n%s", late.op, bound.Round(time.Second), r.c.Fault.Class, r.c.Healthy, bytesAtt, where, others, interesting(string(buf)))
 		r.finishStats(&res)
 		writeResult(r.spec.Out, &res)
 		os.Exit(0)
